@@ -31,6 +31,9 @@ PROP = {
         'maxima, pods without quota label added to / removed from these groups): by the documented treatment they are not part of the division '
         '(their runtime is their max) and the root divides cluster total minus the requests of their assigned pods among its real children; the '
         'first-level oracle uses that total from the harness model and the real root children only',
+        'resource names (treeDims unit): spec.max/min may list cpu only, memory only or both, webhook-valid (min names within max names; below the first '
+        'level the parent\'s max names and min names within the parent\'s; shared weight lists the max names); a name not listed in min is a minimum of 0; '
+        'in a dimension the sibling set is the children whose max lists it; max names only change on first-level leaf quotas and not under ElasticQuotaGuaranteeUsage',
         'Go map iteration order inside quotaTree is not controlled; the order unit additionally calls iterationForRedistribution with explicit slice orders',
     ],
     'units': [{
